@@ -310,7 +310,7 @@ CHECKS["C03"] = dict(
         dict(name="harness_c11_subs", src="C11.cpp", quick={"depth": 1}, thorough={"depth": 2, "_wall": 1700}, thorough_only=True),
         dict(name="harness_c04_add_mul", src="C04.cpp", quick={"B": 1}, thorough={"B": 3, "_wall": 1700}, thorough_only=True),
     ],
-    anchors=["__verif_assert_fail", "SymEngine::Add::is_canonical", "SymEngine::Mul::is_canonical", "SymEngine::Pow::is_canonical", "SymEngine::Sign::is_canonical"],
+    anchors=["SymEngine::Add::is_canonical", "SymEngine::Add::is_canonical", "SymEngine::Mul::is_canonical", "SymEngine::Pow::is_canonical", "SymEngine::Sign::is_canonical"],
     bounds="assertion configuration (every SYMENGINE_ASSERT redirected to the engine, 11 000 sites): 24 one-argument function constructors on 8 argument shapes (integer, rational, Gaussian, n/d*pi, x+n/d*pi, n*x, -x, complex*x) with symbolic n |n|<=2 (5); radical products, nested powers, sqrt(x^2)^2; plus the C07 tree, C10 diff (and in the thorough tier C09, C11, C04) harnesses re-run under assertions; independent structural validator of the documented invariants on every result",
     outside=["series, solve, parsing and deserialisation results", "API call sequences longer than three operations"],
 )
